@@ -5,7 +5,7 @@ import PoxModel.Spec.OF10Frame
 /-! Line-protocol driver for C03: evaluates the model (`Model/Match`, `Model/FlowTable`) and, separately, the specification
 (`Spec/OF10Match`) on the inputs the harness also gives to the real code.
 
-Every request carries `"v":[arpLow8, prereqExact, exactSig, tosDscp]`: which of the proposed repairs the code under test has.
+Every request carries `"v":[arpLow8, prereqExact, exactSig, tosDscp, arpTypeGuard]`: which of the proposed repairs the code under test has.
 
 * `{"op":"pairs","phdr":P,"port":n,"matches":[{"rec":[13 numbers],"wire":bool},…]}`
     → `{"pm":[wildcards, 12 views (null = wildcarded)], "hdr":[12 spec headers], "res":[[wildcards, matched, specMatched],…]}`
@@ -19,6 +19,9 @@ Every request carries `"v":[arpLow8, prereqExact, exactSig, tosDscp]`: which of 
 
 * `{"op":"selfflow","phdr":P,"port":n|null,"swport":n,"sf":bool,"blank":[1..12]?}` → `{"m":[wildcards, 12 views],"wire":rec,"m2w":wildcards after
      unpack,"hit":0|1,"exact":0|1,"spec":0|1}`
+
+`"sphdr": hex` next to a `"phdr"` (pairs, table frames, selfflow): the standard (`hdr`, `spec`) is evaluated on that frame's bytes instead of on
+the model's description.
 
 `P = hex string of the frame's bytes (complete frames: description by `Spec.Frame.parse`) | {"src","dst","typ","llc":null|[oui|null,ethType],"vlan":null|[id,pcp,ethType],"l3":null|["ip",s,d,proto,tos,frag,l4]|["arp",op,s,d]}`,
 `l4 = null|["p",src,dst]|["i",type,code]`; `rec = [wildcards,in_port,dl_src,dl_dst,dl_vlan,dl_vlan_pcp,dl_type,nw_tos,nw_proto,nw_src,nw_dst,tp_src,tp_dst]`. -/
@@ -70,11 +73,20 @@ def phdrOf (j : J) : Except String PHdr := do
     | _ => bad "vlan")
   pure { src := (← j.nat "src"), dst := (← j.nat "dst"), typ := (← j.nat "typ"), llc := llc, vlan := vlan, l3 := (← l3Of (← j.get "l3")) }
 
-/-- `"v":[arpLow8, prereqExact, exactSig, tosDscp]` — which repairs the code under test has (`Model/MatchV.lean`) -/
+/-- the description the STANDARD is evaluated on: `"sphdr"` (the frame's bytes) when the request carries one — the harness sends it when it
+    gives the model another description than the bytes' (open findings about what the packet library makes of a frame) —, else the model's -/
+def specPhdr (j : J) (p : PHdr) : Except String PHdr :=
+  match j.get? "sphdr" with
+  | some x => phdrOf x
+  | none => pure p
+
+/-- `"v":[arpLow8, prereqExact, exactSig, tosDscp, arpTypeGuard]` — which repairs the code under test has (`Model/MatchV.lean`) -/
 def variantOf (j : J) : Except String Variant := do
   match ← j.array "v" with
   | [a, b, c, d] => pure { arpLow8 := (← a.asBool), prereqExact := (← b.asBool), exactSig := (← c.asBool), tosDscp := (← d.asBool) }
-  | _ => bad "v: four booleans expected"
+  | [a, b, c, d, e] => pure { arpLow8 := (← a.asBool), prereqExact := (← b.asBool), exactSig := (← c.asBool), tosDscp := (← d.asBool),
+                              arpTypeGuard := (← e.asBool) }
+  | _ => bad "v: four or five booleans expected"
 
 def jb (b : Bool) : J := J.num (if b then 1 else 0)
 
@@ -91,7 +103,7 @@ def doPairs (j : J) : Except String J := do
   let port ← j.nat "port"
   let v ← variantOf j
   let pm := v.pktMatch p port
-  let h := Spec.headers p port
+  let h := Spec.headers (← specPhdr j p) port
   let res ← (← j.array "matches").mapM fun mj => do
     let r ← recOf (← mj.get "rec")
     let m := if (← mj.boolean "wire") then v.ofWire r else r
@@ -125,8 +137,9 @@ def doTable (j : J) : Except String J := do
     | some t' => pure t'
     | none => bad "IndexError") ([] : Table Nat)
   let frames ← (← j.array "frames").mapM fun fj => do pure ((← phdrOf (← fj.get "phdr")), (← fj.nat "port"))
+  let sframes ← (← j.array "frames").mapM fun fj => do pure ((← specPhdr fj (← phdrOf (← fj.get "phdr"))), (← fj.nat "port"))
   let lookups := (v.lookupSeq tbl frames).map fun r => J.ofOptNat (r.map (·.data))
-  let spec := frames.map fun (p, port) => J.arr (flows.map fun f => jb (Spec.matchHdr f.mtch (Spec.headers p port)))
+  let spec := sframes.map fun (p, port) => J.arr (flows.map fun f => jb (Spec.matchHdr f.mtch (Spec.headers p port)))
   pure (J.mk [("order", J.ofNats (tbl.map (·.data))), ("eff", J.ofNats (tbl.map v.effectivePriority)),
               ("exact", J.arr (es.map fun e => jb (!v.isWildcarded e.mtch))), ("lookups", J.arr lookups), ("spec", J.arr spec), ("rank", J.ofNats (flows.map Spec.rankSig))])
 
@@ -196,7 +209,7 @@ def doSelfFlow (j : J) : Except String J := do
   let m2 := v.ofWire wire
   pure (J.mk [("m", J.arr (J.num m.wildcards :: viewsOf m)), ("wire", J.ofNats (recList wire)), ("m2w", J.num m2.wildcards),
               ("hit", jb (v.mww false m2 (v.pktMatch p swPort))), ("exact", jb (!v.isWildcarded m2)),
-              ("spec", jb (Spec.matchHdr wire (Spec.headers p swPort)))])
+              ("spec", jb (Spec.matchHdr wire (Spec.headers (← specPhdr j p) swPort)))])
 
 def handle (j : J) : Except String J := do
   match ← j.string "op" with
